@@ -41,10 +41,11 @@ Proof.
   - destruct (avail =? 0); discriminate.
   - destruct (avail =? 0); [discriminate|].
     destruct (rp_bit rp =? 0); [discriminate|].
-    destruct (of_bit (rp_bit rp)) as [mc|] eqn:Eb.
+    destruct (of_bit (rp_bit rp)) as [mb|] eqn:Eb.
     2:{ eapply IH; eauto. }
-    destruct (negb (mem mc cms) || (Z.land (rp_bit rp) avail =? 0)) eqn:Eo; [discriminate|].
-    apply orb_false_iff in Eo as [Eo _]. apply negb_false_iff in Eo. apply mem_In in Eo.
+    destruct (offered_under cms (rp_bit rp)) as [mc|] eqn:Eo; [|discriminate].
+    unfold offered_under in Eo. apply find_some in Eo as [Eo _].
+    destruct (Z.land (rp_bit rp) avail =? 0); [discriminate|].
     destruct (meth_eqb mc mPW).
     + (* PASSWORD stub *) eapply IH; eauto.
     + destruct (rp_res rp).
